@@ -6,7 +6,7 @@ use indexmap::IndexMap;
 
 use crate::{
     Data, Executor, IntrospectionMode, QueryEnv, Request, Response, SDLExportOptions, SchemaEnv,
-    ServerError, ServerResult, ValidationMode,
+    ServerError, ServerResult, ValidationMode, Value,
     dynamic::{
         DynamicRequest, FieldFuture, FieldValue, Object, ResolverContext, Scalar, SchemaError,
         Subscription, TypeRef, Union, field::BoxResolverFn, resolve::resolve_container,
@@ -170,8 +170,24 @@ impl SchemaBuilder {
 
         // create system scalars
         for ty in ["Int", "Float", "Boolean", "String", "ID"] {
-            self.types
-                .insert(ty.to_string(), Type::Scalar(Scalar::new(ty)));
+            // resolvers must yield a value of the declared built-in scalar (or null)
+            let scalar = match ty {
+                "Int" => Scalar::new(ty).validator(|value| match value {
+                    Value::Number(n) => n.is_i64() || n.is_u64(),
+                    value => matches!(value, Value::Null),
+                }),
+                "Float" => Scalar::new(ty)
+                    .validator(|value| matches!(value, Value::Number(_) | Value::Null)),
+                "Boolean" => Scalar::new(ty)
+                    .validator(|value| matches!(value, Value::Boolean(_) | Value::Null)),
+                "String" => Scalar::new(ty)
+                    .validator(|value| matches!(value, Value::String(_) | Value::Null)),
+                _ => Scalar::new(ty).validator(|value| match value {
+                    Value::Number(n) => n.is_i64() || n.is_u64(),
+                    value => matches!(value, Value::String(_) | Value::Null),
+                }),
+            };
+            self.types.insert(ty.to_string(), Type::Scalar(scalar));
         }
 
         // create introspection types
